@@ -2,7 +2,7 @@
 function objects, refstring builder/resolver agreement."""
 import ast
 
-from ..astq import is_name, kwarg, parse_fixture, returns_of
+from ..astq import is_name, kwarg, parse_fixture, returns_of, stmt_of
 from ..cfg import CFG
 from ..core import AnalysisError, norm, walk_local, dotted
 
@@ -62,6 +62,15 @@ def helper_creations(fi):
                 out.append((n, norm(n.targets[0]), d))
         elif isinstance(n, ast.Return) and isinstance(n.value, ast.Call) and (dotted(n.value.func) or "") == "transform":
             out.append((n, None, "transform"))
+    # a creation that is neither named nor returned as is (an argument of another call, say) cannot be marked at all
+    direct = {id(st.value) for st, _, _ in out}
+    local = {a.arg for f in ast.walk(fi.node) if isinstance(f, (ast.FunctionDef, ast.AsyncFunctionDef, ast.Lambda)) for a in ast.walk(f.args) if isinstance(a, ast.arg)} | \
+        {x.id for x in ast.walk(fi.node) if isinstance(x, ast.Name) and isinstance(x.ctx, ast.Store)}
+    for n in walk_local(fi.node):
+        if isinstance(n, ast.Call) and id(n) not in direct:
+            d = dotted(n.func) or ""
+            if (d.endswith("FunctionType") or d == "transform") and d.split(".")[0] not in local:
+                out.append((stmt_of(n), "<anonymous>", d))
     return out
 
 
@@ -141,6 +150,10 @@ def run(repo, chk):
             if var is None:
                 chk.ob("R14.2", f"{q}:create[{kind}]:returned-to-user", True, fi.where,
                        f"the function made by {kind}() is returned directly to the caller (it becomes the user's function, with its own code)")
+                continue
+            if var == "<anonymous>":
+                chk.ob("R14.2", f"{q}:create[{kind} inside `{norm(st)[:60]}`]:marked-discard", False, fi.where,
+                       f"a function made by {kind}() is handed on without a name, so it cannot have been marked __ptera_discard__ = True")
                 continue
             uses = long_lived_use(fi, var)
             returned = any(isinstance(r.value, ast.Name) and r.value.id == var for r in returns_of(fi.node) if r.value is not None)
